@@ -160,7 +160,7 @@ func NewEngine(prog *ssa.Program) *Engine {
 	e := &Engine{
 		Prog:           prog,
 		Sizes:          &types.StdSizes{WordSize: 8, MaxAlign: 8},
-		Timeout:        20 * time.Second,
+		Timeout:        60 * time.Second,
 		Workers:        runtime.NumCPU(),
 		stubs:          map[*ssa.Function][]*ssa.Function{},
 		extraExternals: map[string]externalFn{},
